@@ -142,6 +142,18 @@ func concReaderJobs(tier string) []*Job {
 	return jobs
 }
 
+// concReaderLifeJobs: the C17 Reader call sequences (Read small/big/empty, WriteTo, Size, Reset
+// onto the other frame, also before the end of the stream) on a concurrent Reader.
+func concReaderLifeJobs(tier string) []*Job {
+	t := func(L, trail, sizeopt int) map[string]int {
+		return P("num", 2, "L", L, "trail", trail, "n", 3, "period", 0, "bs", 4, "bc", 1, "cc", 1, "sizeopt", sizeopt, "level", 0, "legacy", 0, "deliv", 2, "k", 1)
+	}
+	if tier == "thorough" {
+		return []*Job{cmk("H_life_rc", 1, t(4, 3, 0)), cmk("H_life_rc", 2, t(3, 0, 1))}
+	}
+	return []*Job{cmk("H_life_rc", 1, t(3, 3, 0)), cmk("H_life_rc", 1, t(3, 0, 1))}
+}
+
 func concStreamJobs(tier string) []*Job {
 	var jobs []*Job
 	type sn struct{ shape, n int }
@@ -171,6 +183,7 @@ func init() {
 		Jobs: func(tier string) []*Job {
 			jobs := append(concWriterJobs(tier), concWriterFaultJobs(tier)...)
 			jobs = append(jobs, concReaderJobs(tier)...)
+			jobs = append(jobs, concReaderLifeJobs(tier)...)
 			return append(jobs, concStreamJobs(tier)...)
 		},
 		Bounds: func(tier string) []string {
@@ -182,7 +195,7 @@ func init() {
 				fmt.Sprintf("Writer with ConcurrencyOption in {%s}, 64 KiB blocks, block/content checksum on/off, on-block-done callback installed; call sequences: Write Close | Write Flush Write Close | Write Flush Close | Write Close Reset Write Close | Write Close Close | ReadFrom Close | Write ReadFrom Close | Flush Close | Write Flush Write Flush Write Close | Write Flush Reset Write Close | Write Reset Write Close | Write Close Write Close | Write(64 KiB + 20) Close; chunks of 20 and 10 concrete bytes", nums),
 				fmt.Sprintf("every schedule with at most %d delays (writer faults and reuse: fewer, see job ids ...-dN) of the main goroutine, the ordering goroutine and the per-block goroutines", d),
 				"writer faults: the sink failing at call 0..5 (0..7 for three blocks), the ReadFrom source failing at call 0..1",
-				fmt.Sprintf("Reader with ConcurrencyOption in {%s} over frames of 1..3 (thorough 4) small blocks made by the sequential Writer; Read with 5-byte and 64 KiB buffers, WriteTo; truncation / byte flip at 10 (thorough: every) position(s) of the 2-block frame, source failing at call 0..7; Reset onto an intact frame after a clean end and after an error; legacy frame (sequential fallback)", nums),
+				fmt.Sprintf("Reader with ConcurrencyOption in {%s} over frames of 1..3 (thorough 4) small blocks made by the sequential Writer; Read with 5-byte and 64 KiB buffers, WriteTo; truncation / byte flip at 10 (thorough: every) position(s) of the 2-block frame, source failing at call 0..7; Reset onto an intact frame after a clean end and after an error; legacy frame (sequential fallback); every sequence of 3 (thorough 4) calls of {Read small/big/empty, WriteTo, Size, Reset} including Reset before the end of the stream", nums),
 				"hostile streams: 4..9 (thorough ..10) symbolic bytes after a valid header (and other H_stream shapes) read by a concurrent Reader, at most 1 delay",
 				"obligations on every explored run: no data race (happens-before), no access to a pooled buffer, no deadlock, every call returns, nothing left alive after Close / end / error once runnable goroutines have run, no callback after Close / end, blocks in submission order, frame well-formed for the reference parser",
 			}
